@@ -30,6 +30,19 @@ struct Defaulted {
     8: optional string name = "anon"
     9: optional bool on = true
     10: optional i8 tiny = -7
+    11: optional i32 zero = 0
+    12: optional string empty = ""
+    13: optional double dzero = 0.0
+    14: optional bool off = false
+    15: optional i64 lzero = 0
+}
+
+struct Flags {
+    1: optional list<bool> bits
+    2: optional set<bool> seen
+    3: optional list<byte> raw
+    4: optional list<double> ds
+    5: optional map<bool, byte> bb
 }
 
 struct Nests {
